@@ -34,6 +34,24 @@ func runTextOf(p *opc.Package) (string, bool) {
 	return sb.String(), true
 }
 
+// c04SupersededOnly: a header/footer part may change only when every kind the opened package showed it for was given a
+// new definition by an edit (a part no reference used may be reused freely).
+func c04SupersededOnly(kindsOfPart []string, touched map[string]bool) bool {
+	any := false
+	for k := range touched {
+		any = any || strings.HasPrefix(k, "hf:")
+	}
+	if !any {
+		return false
+	}
+	for _, k := range kindsOfPart {
+		if !touched["hf:"+k] {
+			return false
+		}
+	}
+	return true
+}
+
 func c04Case(c *core.Ctx) *core.Result {
 	res := &core.Result{}
 	document.VerifResetGlobals()
@@ -66,6 +84,23 @@ func c04Case(c *core.Ctx) *core.Result {
 	}
 	tocEdit := false
 	kinds := []document.HeaderFooterType{document.HeaderFooterTypeDefault, document.HeaderFooterTypeFirst, document.HeaderFooterTypeEven}
+	kindNames := []string{"default", "first", "even"}
+	// which header/footer part the opened package shows for which kind: a call for one kind may replace that part only
+	hfKinds := map[string][]string{} // part name -> "header:default", ...
+	if root, pr := P.Tree("word/document.xml"); root != nil && len(pr) == 0 {
+		rels, _ := P.Rels("word/_rels/document.xml.rels")
+		for _, what := range []string{"header", "footer"} {
+			for _, ref := range root.Find(opc.NsW, what+"Reference") {
+				id, _ := ref.Attr(opc.NsR, "id")
+				for _, rel := range rels {
+					if rel.ID == id && !rel.External() {
+						part := opc.ResolveTarget("word/document.xml", rel.Target)
+						hfKinds[part] = append(hfKinds[part], what+":"+ref.AttrW("type"))
+					}
+				}
+			}
+		}
+	}
 	for i := 0; i < nEdits; i++ {
 		var name string
 		cg := core.Catch(func() {
@@ -91,12 +126,14 @@ func c04Case(c *core.Ctx) *core.Result {
 				}
 			case 3:
 				name = "AddHeader/Footer"
+				k := r.Intn(3)
 				if r.Bool() {
-					d.AddHeader(kinds[r.Intn(3)], "new header")
+					d.AddHeader(kinds[k], "new header")
+					touched["hf:header:"+kindNames[k]] = true
 				} else {
-					d.AddFooter(kinds[r.Intn(3)], "new footer")
+					d.AddFooter(kinds[k], "new footer")
+					touched["hf:footer:"+kindNames[k]] = true
 				}
-				touched["header/footer"] = true
 			case 4:
 				name = "AddListItem"
 				d.AddBulletList("⟦new⟧ item", r.Range(0, 2), document.BulletTypeDot)
@@ -170,7 +207,7 @@ func c04Case(c *core.Ctx) *core.Result {
 			res.Add(mode+"/part-missing/"+cls, "part "+n+" of the opened package is not in the saved package", note)
 		case c04Regenerated[n]:
 		case bytes.Equal(P.Parts[n], qb):
-		case touched[n] || (isHF && touched["header/footer"]):
+		case touched[n] || (isHF && c04SupersededOnly(hfKinds[n], touched)):
 			// an edit that legitimately extends this part: it must still contain everything it had (checked below for relationships / text)
 			res.Count("parts_legitimately_extended", 1)
 		default:
